@@ -48,9 +48,10 @@ pub const SERDE_FAULTS: [SerdeFault; 4] = [SerdeFault::None, SerdeFault::EndsEar
 #[derive(Clone, Copy)]
 pub struct SerdeOps {
     /// tokens emitted by the real Serialize impl (plain, Wrapping)
-    pub ser: fn(u128, bool) -> Result<Vec<Tok>, String>,
+    /// (bits, wrapping, format claims to be human readable)
+    pub ser: fn(u128, bool, bool) -> Result<Vec<Tok>, String>,
     /// drive the real Deserialize impl from a simulated token stream
-    pub de: fn(u128, bool, Pres, SerdeFault) -> (Result<u128, String>, Option<(String, Vec<String>)>),
+    pub de: fn(u128, bool, Pres, SerdeFault, bool) -> (Result<u128, String>, Option<(String, Vec<String>)>),
     pub json: fn(u128, bool) -> Result<String, String>,
     pub json_twin: fn(u128) -> Result<String, String>,
     pub unjson: fn(&str, bool) -> Result<u128, String>,
@@ -73,8 +74,8 @@ pub fn serde_ops<T: crate::lay::Lay>() -> SerdeOps {
         Err("substrate-fixed built without its serde feature".into())
     }
     SerdeOps {
-        ser: |_, _| off(),
-        de: |_, _, _, _| (off(), None),
+        ser: |_, _, _| off(),
+        de: |_, _, _, _, _| (off(), None),
         json: |_, _| off(),
         json_twin: |_| off(),
         unjson: |_, _| off(),
@@ -115,7 +116,7 @@ impl de::Error for TokErr {
 
 // ------------------------------------------------------------------ serializer
 
-pub struct TokSer<'a>(pub &'a mut Vec<Tok>);
+pub struct TokSer<'a>(pub &'a mut Vec<Tok>, pub bool);
 
 macro_rules! ser_int {
     ($($m:ident $t:ty, $w:expr, $u:ty, $s:expr;)*) => {$(
@@ -178,19 +179,22 @@ impl<'a> Serializer for TokSer<'a> {
     fn serialize_newtype_variant<T: ?Sized + Serialize>(self, n: &'static str, _: u32, _: &'static str, _: &T) -> Result<(), TokErr> {
         Err(TokErr(format!("unexpected serializer call serialize_newtype_variant({})", n)))
     }
+    fn is_human_readable(&self) -> bool {
+        self.1
+    }
     fn serialize_struct(self, name: &'static str, len: usize) -> Result<TokSerStruct<'a>, TokErr> {
         self.0.push(Tok::Struct(name.to_string(), len));
-        Ok(TokSerStruct(self.0))
+        Ok(TokSerStruct(self.0, self.1))
     }
 }
 
-pub struct TokSerStruct<'a>(&'a mut Vec<Tok>);
+pub struct TokSerStruct<'a>(&'a mut Vec<Tok>, bool);
 impl<'a> SerializeStruct for TokSerStruct<'a> {
     type Ok = ();
     type Error = TokErr;
     fn serialize_field<T: ?Sized + Serialize>(&mut self, key: &'static str, value: &T) -> Result<(), TokErr> {
         self.0.push(Tok::Field(key.to_string()));
-        value.serialize(TokSer(self.0))
+        value.serialize(TokSer(self.0, self.1))
     }
     fn end(self) -> Result<(), TokErr> {
         self.0.push(Tok::End);
@@ -210,6 +214,8 @@ pub struct TokDe {
     pub bits: u128,
     /// what the impl asked for: (struct name, field list)
     pub asked: Option<(String, Vec<String>)>,
+    /// what `is_human_readable()` answers
+    pub hr: bool,
 }
 
 struct IntDe {
@@ -310,6 +316,9 @@ impl<'de, 'a> MapAccess<'de> for OneMap<'a> {
 
 impl<'de, 'a> Deserializer<'de> for &'a mut TokDe {
     type Error = TokErr;
+    fn is_human_readable(&self) -> bool {
+        self.hr
+    }
     fn deserialize_any<V: Visitor<'de>>(self, _: V) -> Result<V::Value, TokErr> {
         Err(TokErr("unexpected deserializer call (not deserialize_struct)".into()))
     }
@@ -349,14 +358,14 @@ impl<'de, T: Lay> serde::Deserialize<'de> for W<T> {
 // ------------------------------------------------------------------ per-layout entry points
 
 
-fn ser<T: Lay>(bits: u128, wrapping: bool) -> Result<Vec<Tok>, String> {
+fn ser<T: Lay>(bits: u128, wrapping: bool, hr: bool) -> Result<Vec<Tok>, String> {
     let mut toks = Vec::new();
     let v = T::fb(bits);
-    let r = if wrapping { v.w_serialize(TokSer(&mut toks)) } else { v.serialize(TokSer(&mut toks)) };
+    let r = if wrapping { v.w_serialize(TokSer(&mut toks, hr)) } else { v.serialize(TokSer(&mut toks, hr)) };
     r.map(|_| toks).map_err(|e| e.0)
 }
-fn de<T: Lay>(bits: u128, wrapping: bool, pres: Pres, fault: SerdeFault) -> (Result<u128, String>, Option<(String, Vec<String>)>) {
-    let mut d = TokDe { pres, fault, width: T::W, signed: T::SIGNED, bits, asked: None };
+fn de<T: Lay>(bits: u128, wrapping: bool, pres: Pres, fault: SerdeFault, hr: bool) -> (Result<u128, String>, Option<(String, Vec<String>)>) {
+    let mut d = TokDe { pres, fault, width: T::W, signed: T::SIGNED, bits, asked: None, hr };
     let r = if wrapping {
         T::w_deserialize(&mut d).map(|v| v.tb())
     } else {
